@@ -849,8 +849,19 @@ def build_controls(prog: Program) -> list[tuple[str, str, str, str, str]]:
                 add("a zero reading counts as missing", RFB, stmt_patch(holder, cmp_, lambda t, txt=txt, new=new: t.replace(txt, new, 1)), "C13.CONV")
                 break
         break
+    # POOL: the engine cache key loses the missing-value policy
+    for fn_ in prog.all_functions():
+        if fn_.name != "from_string" or "nones_are_zeros" not in fn_.params:
+            continue
+        for a in (x for x in ast.walk(fn_.node) if isinstance(x, ast.Assign) and len(x.targets) == 1 and isinstance(x.targets[0], ast.Name)
+                  and any(isinstance(n, ast.Name) and n.id == "nones_are_zeros" for n in ast.walk(x.value))
+                  and any(isinstance(y, ast.Subscript) and isinstance(y.slice, ast.Name) and y.slice.id == x.targets[0].id for y in ast.walk(fn_.node))):
+            others = [p_ for p_ in fn_.params if p_ not in ("self", "nones_are_zeros")]
+            add("engine cache key without the missing-value policy", fn_.module.name, stmt_patch(
+                fn_, a, lambda t, a=a, others=others: f"{' ' * a.col_offset}{a.targets[0].id} = " + " + ".join(f"str({o})" for o in others) + "\n"), "C13.POOL")
+            break
     if len(out) < 6:
-        raise AnalysisError(f"C13: only {len(out)} of 13 seeded controls could be derived from the source ({[o[0] for o in out]})")
+        raise AnalysisError(f"C13: only {len(out)} of 14 seeded controls could be derived from the source ({[o[0] for o in out]})")
     return out
 
 
@@ -894,6 +905,16 @@ def run_rules(run: Run, prog: Program) -> None:
     check_read(run, prog)
     check_emit(run, prog)
     check_conv(run, prog)
+    check_policy_key(run, prog)
+
+
+def check_policy_key(run: Run, prog: Program) -> None:
+    """C13.POOL ("... or count as zero *on request*"): a cache of engines built from formula strings hands a stored
+    engine only to a request with the same missing-value policy (the rule is C05.POOL's, asked for the parameters
+    that reach from_string's `nones_are_zeros` instead of those that select the expression)."""
+    from .c05 import check_pool
+
+    check_pool(run, prog, rule="C13.POOL", policy_mode=True)
 
 
 def check(run: Run, prog: Program, tier: str) -> str:
@@ -916,6 +937,8 @@ def check(run: Run, prog: Program, tier: str) -> str:
     run.rule("C13.CONV", "the per-sample conversion on a resampled stream hands a present value on as create(value.base_value) "
              "whatever the number (0.0 included) and maps None to None; only a None test of the value separates the two")
     run_rules(run, prog)
+    run.rule("C13.POOL", "a cache of string-formula engines is keyed by the missing-value policy too: a request with the other "
+             "nones_are_zeros setting is not answered with the stored engine")
     run.floor("C13.CONV", 3)
     run.floor("C13.UNDEF", 1)
     run.floor("C13.EMIT", 2)
